@@ -1,9 +1,249 @@
+import CoupeModel.Model.Ffi
 import CoupeModel.Driver.Util
 
-namespace Coupe.Driver.C17
-open Coupe.Driver
+/-!
+Line protocol of C17 (see `harness/src/props/c17.rs` for the grammar).  The op carries, after
+the token `R`, the outcome of the Rust API on the same logical data; the model of the FFI
+layer predicts from it (and from the lengths, types, dimension) the line the real C library
+must produce: `<CODE>(<n>) | <ids>`.
+-/
 
-/-- (stub; not built yet) -/
-def handle (_toks : List String) : String := "bad-op"
+namespace Coupe.Driver.C17
+open Coupe.Ffi Coupe.Gen.Ffi Coupe.Driver
+
+structure DS where
+  repr : String
+  ty : Ty
+  arity : Nat
+  len : Nat
+  vals : List String
+
+def parseTy? : String → Option Ty
+  | "int" => some .Int
+  | "i64" => some .Int64
+  | "f64" => some .Double
+  | _ => none
+
+def validVal (ty : Ty) (s : String) : Bool :=
+  match ty with
+  | .Double => (parseHex? s).isSome
+  | .Int64 => (parseInt? s).isSome
+  | .Int => match parseInt? s with
+    | some v => decide (-2147483648 ≤ v ∧ v ≤ 2147483647)
+    | none => false
+
+def takeN {α} : Nat → List α → Option (List α × List α)
+  | 0, rest => some ([], rest)
+  | _ + 1, [] => none
+  | n + 1, t :: ts => do
+    let (xs, rest) ← takeN n ts
+    pure (t :: xs, rest)
+
+/-- `<repr> <type> <arity> <len> <k> <v…>` -/
+def parseDS (toks : List String) : Option (DS × List String) :=
+  match toks with
+  | repr :: ty :: arity :: len :: k :: rest => do
+    let ty ← parseTy? ty
+    let arity ← parseNat? arity
+    let len ← parseNat? len
+    let k ← parseNat? k
+    if !(repr == "arr" || repr == "const" || repr == "fn") then none
+    if arity == 0 || arity > 8 || len > 1000000 then none
+    if k != (if repr == "const" then arity else len * arity) then none
+    let (vals, rest) ← takeN k rest
+    if !(vals.all (validVal ty)) then none
+    pure ({ repr, ty, arity, len, vals }, rest)
+  | _ => none
+
+def chunks {α} (n : Nat) (l : List α) : Nat → List (List α)
+  | 0 => []
+  | fuel + 1 => if l.isEmpty then [] else l.take n :: chunks n (l.drop n) fuel
+
+/-- The data set as the library sees it: memory / value / callback. -/
+def DS.toData (d : DS) : Data (List String) :=
+  if d.repr == "arr" then .array d.len (chunks d.arity d.vals d.vals.length)
+  else if d.repr == "const" then .constant d.len d.vals
+  else
+    let c := chunks d.arity d.vals d.vals.length
+    .fn d.len (fun i => c.getD i [])
+
+/-- Length of the logical sequence, through the modelled accessor. -/
+def DS.logicalLen (d : DS) : Nat := d.toData.toSlice.length
+
+/-- `I <n> <p…>` -/
+def parseInit (toks : List String) : Option (List Nat × List String) :=
+  match toks with
+  | "I" :: n :: rest => do
+    let n ← parseNat? n
+    if n > 1000000 then none
+    takeParsed parseNat? n rest
+  | _ => none
+
+inductive RefOut where
+  | algo (a : Algo)
+  | ties
+  | na
+  | skip (why : String)
+
+def parseIds (toks : List String) : Option (List Nat) :=
+  match toks with
+  | n :: rest => do
+    let n ← parseNat? n
+    let (ids, rest) ← takeParsed parseNat? n rest
+    if rest.isEmpty then some ids else none
+  | [] => none
+
+/-- What follows `R`. -/
+def parseRef (toks : List String) : Option RefOut :=
+  match toks with
+  | [] => some .na             -- an op without reference: only prologue outcomes are predictable
+  | "R" :: "ok" :: rest => (parseIds rest).map (fun ids => .algo (.ok ids))
+  | ["R", "okties"] => some .ties
+  | "R" :: "err" :: v :: rest => do
+    let e ← cErrOfName v
+    let ids ← parseIds rest
+    pure (.algo (.err e ids))
+  | "R" :: "herr" :: v :: rest => do
+    if !(hilbertErrorVariants.contains v) then none
+    let ids ← parseIds rest
+    pure (.algo (.hilbertErr ids))
+  | ["R", "panic"] => some (.algo .panic)
+  | ["R", "na"] => some .na
+  | ["R", "nulladj"] => some (.skip "the structure check of coupe_adjncy_csr is sprs', not modelled")
+  | ["R", "hang"] => some (.skip "reference hung")
+  | _ => none
+
+def showRes (r : Res) : String :=
+  let full := (headerErrConsts[r.code.code]?).getD "COUPE_ERR_?"
+  let nm := String.ofList (full.toList.drop "COUPE_ERR_".length)
+  let head := nm ++ "(" ++ toString r.code.code ++ ")"
+  match r.part with
+  | none => head
+  | some ids => if ids.isEmpty then head ++ " |" else head ++ " | " ++ joinNats ids
+
+def predict (e : Entry) (a : Args) (r : RefOut) : String :=
+  match r with
+  | .skip why => "skip " ++ why
+  | .algo algo => showRes (run e a algo)
+  | .ties =>
+    let res := run e a (.ok [])
+    if res.code == .Ok then showRes ⟨.Ok, none⟩ ++ " ~ties" else showRes res
+  | .na =>
+    -- no Rust-level counterpart: the call must be rejected whatever the algorithm would do
+    let r1 := run e a .panic
+    let r2 := run e a (.ok [])
+    if r1 == r2 then showRes r1 else "model-needs-ref"
+
+def splitRef (toks : List String) : List String × List String :=
+  (toks.takeWhile (· != "R"), toks.dropWhile (· != "R"))
+
+def handleGeo (e : Entry) (dim : Nat) (rest : List String) : Option String :=
+  match rest with
+  | "P" :: rest => do
+    let (pts, rest) ← parseDS rest
+    match rest with
+    | "W" :: rest => do
+      let (ws, rest) ← parseDS rest
+      let (init, rest) ← parseInit rest
+      let r ← parseRef rest
+      if pts.ty != .Double || ws.arity != 1 || init.length != pts.len then none
+      if e == .hilbert && pts.arity != 2 then none
+      if e != .hilbert && (dim == 2 || dim == 3) && pts.arity != dim then none
+      let a : Args := { dim, pointsLen := pts.logicalLen, weightsLen := ws.logicalLen,
+                        weightsTy := ws.ty, init }
+      if init.length != elemCount e a then none
+      pure (predict e a r)
+    | _ => none
+  | _ => none
+
+def handleNum (e : Entry) (rest : List String) : Option String :=
+  match rest with
+  | "W" :: rest => do
+    let (ws, rest) ← parseDS rest
+    let (init, rest) ← parseInit rest
+    let r ← parseRef rest
+    if ws.arity != 1 then none
+    let a : Args := { weightsLen := ws.logicalLen, weightsTy := ws.ty, init }
+    if init.length != elemCount e a then none
+    pure (predict e a r)
+  | _ => none
+
+def handleFm (rest : List String) : Option String :=
+  match rest with
+  | "A" :: ctor :: aty :: size :: nx :: rest => do
+    let aty ← parseTy? aty
+    let size ← parseNat? size
+    let nx ← parseNat? nx
+    if !(ctor == "checked" || ctor == "unchecked") then none
+    if size > 100000 || nx != size + 1 then none
+    let (xadj, rest) ← takeParsed parseNat? nx rest
+    match rest with
+    | na :: rest => do
+      let na ← parseNat? na
+      if xadj.getLast? != some na then none
+      let (_, rest) ← takeParsed parseNat? na rest
+      match rest with
+      | nd :: rest => do
+        let nd ← parseNat? nd
+        if nd != na then none
+        let (dat, rest) ← takeN nd rest
+        if !(dat.all (validVal aty)) then none
+        handleNumFm aty rest
+      | [] => none
+    | [] => none
+  | _ => none
+where
+  handleNumFm (aty : Ty) (rest : List String) : Option String :=
+    match rest with
+    | "W" :: rest => do
+      let (ws, rest) ← parseDS rest
+      let (init, rest) ← parseInit rest
+      let r ← parseRef rest
+      if ws.arity != 1 then none
+      let a : Args := { weightsLen := ws.logicalLen, weightsTy := ws.ty, adjTy := aty, init }
+      if init.length != elemCount .fm a then none
+      pure (predict .fm a r)
+    | _ => none
+
+def handle (toks : List String) : String :=
+  let r : Option String :=
+    match toks with
+    | ["strerror", n] => do
+      let n ← parseNat? n
+      let (_, msg) ← strerrorArms[n]?
+      if n != ((errOfName ((rustErrVariants[n]?).getD "")).map Err.code).getD 99 then none
+      pure ("strerror " ++ toString n ++ " " ++ msg)
+    | "rcb" :: dim :: iter :: tol :: rest => do
+      let dim ← parseNat? dim
+      let _ ← parseNat? iter
+      let _ ← parseHex? tol
+      handleGeo .rcb dim rest
+    | "rib" :: dim :: iter :: tol :: rest => do
+      let dim ← parseNat? dim
+      let _ ← parseNat? iter
+      let _ ← parseHex? tol
+      handleGeo .rib dim rest
+    | "hilbert" :: parts :: order :: rest => do
+      let _ ← parseNat? parts
+      let o ← parseNat? order
+      if o ≥ 4294967296 then none
+      handleGeo .hilbert 2 rest
+    | "greedy" :: parts :: rest => do
+      let _ ← parseNat? parts
+      handleNum .greedy rest
+    | "kk" :: parts :: rest => do
+      let _ ← parseNat? parts
+      handleNum .kk rest
+    | "ckk" :: tol :: rest => do
+      let _ ← parseHex? tol
+      handleNum .ckk rest
+    | "fm" :: mp :: mm :: imb :: mb :: rest => do
+      let _ ← parseNat? mp
+      let _ ← parseNat? mm
+      let _ ← parseHex? imb
+      let _ ← parseNat? mb
+      handleFm rest
+    | _ => none
+  r.getD "bad-op"
 
 end Coupe.Driver.C17
